@@ -7,8 +7,13 @@
 
 mod alpha;
 mod c01;
+mod c02;
+mod c03;
+mod c05;
+mod scenes;
 mod c06;
 mod c10;
+mod c13;
 mod c14;
 mod cat;
 mod conv;
